@@ -2659,10 +2659,8 @@ def _one_info_alias_asname(self: fst.FST, static: onestatic, idx: int | None, fi
         loc_prim = None
 
     else:
-        lines = self.root._lines
-        ln, col = next_find(lines, ln, col, end_ln, end_col, 'as')  # skip the 'as'
-        ln, col = next_find(lines, ln, col + 2, end_ln, end_col, asname)  # must be there
-        loc_prim = fstloc(ln, col, ln, col + len(asname))
+        ln, col, src = prev_frag(self.root._lines, ln, col, end_ln, end_col)  # asname is the last thing in the alias, search from the end because the name may contain 'as'
+        loc_prim = fstloc(ln, col, ln, col + len(src))
 
     return oneinfo(' as ', loc_insdel, loc_prim)
 
